@@ -50,6 +50,7 @@ pub struct Params {
     pub leaf_rate: u32, // percent of creations that are leaves
     pub quiesce_end: bool,
     pub cleaner_idioms: bool,
+    pub forward_idioms: bool,
     pub exact_threshold_prologue: u32, // percent of runs that start by driving allocated bytes exactly onto the threshold
 }
 
@@ -109,6 +110,7 @@ pub fn params(profile: &str) -> Params {
         leaf_rate: 10,
         quiesce_end: true,
         cleaner_idioms: false,
+        forward_idioms: false,
         exact_threshold_prologue: 0,
     };
     let all_faults = vec![
@@ -199,7 +201,7 @@ pub fn params(profile: &str) -> Params {
             p.exact_threshold_prologue = 25;
         }
         "saturate" => {
-            set(&mut p.w, &[(O::BulkClone, 10), (O::BulkUpgrade, 6), (O::BulkWeakClone, 6), (O::BulkDowngrade, 6), (O::BulkDrop, 6), (O::BulkWeakDrop, 4), (O::Clone, 8), (O::Upgrade, 6), (O::Downgrade, 6), (O::WeakClone, 4), (O::BulkRegister, 4), (O::BulkClean, 3)]);
+            set(&mut p.w, &[(O::BulkClone, 10), (O::BulkUpgrade, 6), (O::BulkWeakClone, 6), (O::BulkDowngrade, 6), (O::BulkDrop, 6), (O::BulkWeakDrop, 4), (O::Clone, 8), (O::Upgrade, 6), (O::Downgrade, 6), (O::WeakClone, 4), (O::BulkRegister, 4), (O::BulkClean, 3), (O::BulkEdges, 6), (O::BulkEdgesDrop, 3), (O::Collect, 10)]);
             p.ops = (4, 12, 30);
             p.max_objects = 6;
             p.idiom_rate = 10;
@@ -214,7 +216,8 @@ pub fn params(profile: &str) -> Params {
             p.faults = 15;
         }
         "forward" => {
-            set(&mut p.w, &[(O::NewKeyI, 14), (O::NewKeyF, 14), (O::NewDefault, 3), (O::Compare, 30), (O::NewLeaf, 10), (O::Downgrade, 6), (O::Collect, 8)]);
+            set(&mut p.w, &[(O::NewKeyI, 14), (O::NewKeyF, 14), (O::NewDefault, 3), (O::Compare, 30), (O::NewLeaf, 10), (O::Downgrade, 6), (O::Collect, 8), (O::DebugChain, 2)]);
+            p.forward_idioms = true;
         }
         _ => {}
     }
@@ -404,6 +407,9 @@ impl<'a> Gen<'a> {
             O::BulkDowngrade => Op::new(code, &[h, self.bulk_n(32767)]),
             O::BulkRegister => Op::new(code, &[n, if self.r.chance(1, 3) { self.bulk_n(32767) } else { 1 + self.r.below(40) as i64 }]),
             O::BulkClean => Op::new(code, &[n, 1 + self.r.below(60) as i64]),
+            O::BulkEdges => Op::new(code, &[n, h, self.bulk_n(16382)]),
+            O::BulkEdgesDrop => Op::new(code, &[n, self.bulk_n(16382)]),
+            O::DebugChain => Op::new(code, &[*self.r.pick(&[1i64, 2, 5, 40, 127, 128, 129, 130, 200, 300])]),
             O::Compare => Op::new(O::Compare, &[h, self.handle_guess()]),
             O::Collect | O::Quiesce | O::Observe | O::NewDefault => Op::new(code, &[]),
             _ => Op::new(code, &[h]),
@@ -426,6 +432,18 @@ impl<'a> Gen<'a> {
     fn idiom(&mut self) {
         use OpCode as O;
         let base = self.sh.roots.len() as i64;
+        if self.p.forward_idioms && self.r.chance(1, 2) {
+            // two distinct allocations of the same payload type (zero-sized and over-aligned ones included), a clone, and
+            // every pairing compared: ptr_eq must tell allocations apart, not values or addresses of zero-sized values
+            let ly = if self.r.chance(1, 2) { self.r.below(8) as i64 } else { self.r.below(N_LAYOUTS as u64) as i64 };
+            self.push(Op::new(O::NewLeaf, &[ly]));
+            self.push(Op::new(O::NewLeaf, &[ly]));
+            self.push(Op::new(O::Clone, &[base]));
+            for (x, y) in [(base, base + 1), (base, base + 2), (base + 1, base + 1), (base + 2, base + 1)] {
+                self.push(Op::new(O::Compare, &[x, y]));
+            }
+            return;
+        }
         let kinds = if self.p.cleaner_idioms { 11 } else { 9 };
         match self.r.below(kinds) {
             0 => {
